@@ -464,8 +464,9 @@ static Bytes ReuseBytes() { static Bytes b; if (b.empty()) { Message ok(0x524555
 static bool gMiniDup;
 static void WalkMini(const MMessage * mm, int depth)
 {
-   MMessageIterator it = MMGetFieldNameIterator(mm, B_ANY_TYPE); const char * fn; uint32 tc; int guard = 0;
+   MMessageIterator it = MMGetFieldNameIterator(mm, B_ANY_TYPE); const char * fn; uint32 tc; int guard = 0; std::set<std::string> seen;
    while ((fn = MMGetNextFieldName(&it, &tc)) != NULL && guard++ < 100000) {
+      if (!seen.insert(fn).second) { vh::stat("unspecified_mini_duplicate_field_name"); gMiniDup = true; continue; }   // hostile input may repeat a name: lookups by name see the first one only
       Touch(fn, strlen(fn) + 1); uint32 n = 0, t2 = 0; if (MMGetFieldInfo(mm, fn, B_ANY_TYPE, &n, &t2) != CB_NO_ERROR) { Fail("walk|mini-fieldinfo", "MMGetFieldInfo cannot find an iterated field"); return; }
       if (t2 != tc) { vh::stat("unspecified_mini_duplicate_field_name"); gMiniDup = true; continue; }   // hostile input may repeat a name with another type: lookups by name see the first one
       uint32 k = 0;
